@@ -75,6 +75,73 @@ Definition model_cache (c : cache_case) :=
      end) ([] : store nat nat) calls.
 
 (* ---------------------------------------------------------------------------------------
+   several indexes alive in one process, each with its own model (vector = (model, text)),
+   key table and cache configuration.  An index is (keys, model, store, enabled) where store is
+   Some d for the persistent store number d (the harness numbers the distinct
+   (store type, cache_dir) pairs) and None for in_memory (fresh per call).
+   calls: (index number, texts, results observed, model-call argument lists observed);
+   final: (store number, key, value found in the real store afterwards). *)
+Definition vec2 := (nat * nat)%type.
+Definition v2_eqb : vec2 -> vec2 -> bool := pair_eqb Nat.eqb Nat.eqb.
+Definition mindex := (list nat * nat * option nat * bool)%type.
+Definition mobs := (nat * list nat * list (option vec2) * list (list nat))%type.
+Definition multi_case := (list mindex * list mobs * list (nat * nat * option vec2))%type.
+Definition mstores := list (nat * store nat vec2).
+
+Definition sto_get (St : mstores) (d : nat) : store nat vec2 :=
+  match find (fun p => fst p =? d) St with Some p => snd p | None => [] end.
+
+Definition multi_step (ixs : list mindex) (St : mstores) (i : nat) (texts : list nat)
+  : option (list (option vec2) * list (list nat) * mstores) :=
+  match nth_error ixs i with
+  | None => None
+  | Some (keys, m, sid, en) =>
+      let s := match sid with Some d => sto_get St d | None => [] end in
+      let r := wrapper Nat.eq_dec Nat.eq_dec (kg_tab keys) en (map (fun t => (m, t))) s texts in
+      Some (w_results r, w_calls r,
+            match sid with Some d => if en then (d, w_store r) :: St else St | None => St end)
+  end.
+
+Fixpoint run_multi (ixs : list mindex) (St : mstores) (calls : list mobs) : option mstores :=
+  match calls with
+  | [] => Some St
+  | (i, texts, ores, ocalls) :: rest =>
+      match multi_step ixs St i texts with
+      | None => None
+      | Some (res, mc, St') =>
+          if list_eqb (opt_eqb v2_eqb) res ores && calls_eqb mc ocalls then run_multi ixs St' rest else None
+      end
+  end.
+
+Definition check_multi (c : multi_case) : bool :=
+  let '(ixs, calls, final) := c in
+  match run_multi ixs [] calls with
+  | None => false
+  | Some St => forallb (fun f => let '(d, k, v) := f in
+                                opt_eqb v2_eqb (store_get Nat.eq_dec (sto_get St d) k) v) final
+  end.
+
+Definition model_multi (c : multi_case) :=
+  let '(ixs, calls, _) := c in
+  (fix go St calls :=
+     match calls with
+     | [] => []
+     | (i, texts, _, _) :: rest =>
+         match multi_step ixs St i texts with
+         | None => []
+         | Some (res, mc, St') => (res, mc) :: go St' rest
+         end
+     end) ([] : mstores) calls.
+
+(* two indexes, two models, one text: separate stores keep the models apart, one store does not *)
+Example multi_separate_and_shared :
+  check_multi ([([0], 1, Some 0, true); ([0], 2, Some 1, true)],
+               [(0, [0], [Some (1, 0)], [[0]]); (1, [0], [Some (2, 0)], [[0]])], []) = true /\
+  check_multi ([([0], 1, Some 0, true); ([0], 2, Some 0, true)],
+               [(0, [0], [Some (1, 0)], [[0]]); (1, [0], [Some (1, 0)], [])], []) = true.
+Proof. vm_compute. split; reflexivity. Qed.
+
+(* ---------------------------------------------------------------------------------------
    trace inclusion for batching.
    snapshot of the index object taken at the START of every logged atomic step:
      (list(_req_queue.items()), list(_req_results.items()) decoded, _req_idx,
